@@ -159,7 +159,11 @@ def object_replay(chk: core.Check, prop: str, behs: List[Dict[str, Any]]) -> Non
         shuffled = winds[:]
         rnd.shuffle(shuffled)
         if winds:
-            shot = m.Shot(weapon=m.Weapon(), ammo=m.Ammo(m.DragModel(0.3, m.TableG7), U.FPS(2000)), winds=shuffled)
+            if bi % 2:
+                shot = m.Shot(weapon=m.Weapon(), ammo=m.Ammo(m.DragModel(0.3, m.TableG7), U.FPS(2000)), winds=shuffled)
+            else:       # through the public setter
+                shot = m.Shot(weapon=m.Weapon(), ammo=m.Ammo(m.DragModel(0.3, m.TableG7), U.FPS(2000)))
+                shot.winds = shuffled
             sock = _WindSock(shot.winds)
         else:
             sock = _WindSock(None)
